@@ -130,7 +130,22 @@ func (g *fpGen) zero(t string) string {
 
 func (g *fpGen) collect(repo string) error {
 	fset := token.NewFileSet()
-	for _, fn := range fpFiles {
+	// the four known files first (stable order of the generated lists), then any other non-test source file of the
+	// package except the verification hooks: a method added in a new file is translated (or listed) as well
+	files := append([]string{}, fpFiles...)
+	if ents, err := os.ReadDir(filepath.Join(repo, "pkg/obifp")); err == nil {
+		var extra []string
+		for _, e := range ents {
+			n := e.Name()
+			if !strings.HasSuffix(n, ".go") || strings.HasSuffix(n, "_test.go") || strings.HasPrefix(n, "verif_hooks") || fpIndex(fpFiles, n) >= 0 {
+				continue
+			}
+			extra = append(extra, n)
+		}
+		sort.Strings(extra)
+		files = append(files, extra...)
+	}
+	for _, fn := range files {
 		f, err := parser.ParseFile(fset, filepath.Join(repo, "pkg/obifp", fn), nil, 0)
 		if err != nil {
 			return err
